@@ -10,7 +10,7 @@
    nesting by evaluating the executable relation (IsoCheck.embed_check) in coqc on the two real tables.
    Known refusals F10 / F12 are known findings. *)
 From Coq Require Import List.
-From Tawazi Require Import Graph Sched SchedInv Dataflow DataflowFacts Iso IsoFacts.
+From Tawazi Require Import Graph Sched SchedInv Dataflow DataflowFacts Terms Iso IsoFacts IsoCheck IsoCheckFacts.
 Import ListNotations.
 
 Section C20.
@@ -41,3 +41,18 @@ Proof. exact (den_embed_failures val vnone truthy index tbl1 tbl2 c1 c2 res1 res
 End C20.
 Print Assumptions C20_nested_equals_inlined.
 Print Assumptions C20_nested_failures.
+
+(* the executable relation evaluated by the correspondence on the real inner / outer tables implies the
+   embedding: when embed_check returns [] on them, every inner node has in the outer DAG the denotation it
+   has in the inner DAG with its parameters bound (bound = the inner parameters; their values are, by
+   definition, the denotations of the outer argument stubs) *)
+Theorem C20_embed_check_den specs1 specs2 c1 c2 res1 res2 rho_l bound :
+  embed_check specs1 specs2 c1 c2 res1 res2 rho_l bound = [] ->
+  wf (cfg_bind c1 bound) ->
+  consistent term (spec_tbl specs1) (cfg_bind c1 bound) (res_bind specs2 c2 res2 rho_l bound res1) ->
+  consistent term (spec_tbl specs2) c2 res2 ->
+  forall n, In n (Dataflow.R0 (cfg_bind c1 bound)) ->
+    den term TNone t_truthy t_index (spec_tbl specs2) c2 res2 (rho_of rho_l n) =
+    den term TNone t_truthy t_index (spec_tbl specs1) (cfg_bind c1 bound) (res_bind specs2 c2 res2 rho_l bound res1) n.
+Proof. exact (embed_check_den specs1 specs2 c1 c2 res1 res2 rho_l bound). Qed.
+Print Assumptions C20_embed_check_den.
